@@ -30,7 +30,7 @@ impl Record {
     #[verifier::external_body]
     pub fn deleted(key: &KeyT, timestamp: u64, meta: Option<Meta>) -> (r: Result<Record, VErr>)
         ensures r.is_ok() ==> hdr_deleted(r->Ok_0.hdr()) && r->Ok_0.hdr().timestamp == timestamp
-            && r->Ok_0.hdr().data_size == 0 && r->Ok_0.hdr().key@ == key@ && r->Ok_0.total_len() < 0x1_0000_0000,
+            && r->Ok_0.hdr().data_size == 0 && r->Ok_0.hdr().key@ == key@ && 0 <= r->Ok_0.total_len() < 0x1_0000_0000,
     { unimplemented!() }
 }
 
